@@ -55,6 +55,8 @@ Oracle calibration
   * generated check hooks return None (a hook returning True is frappy's documented 'stop checking' and is not
     generated); a parameter never has both <p>_limits and <p>_min/_max; a class defining both a limit and a hook
     for the same parameter is not generated (frappy documents that the hook then replaces the automatic check).
+  * every world holds three more modules of one small class (not exported with per-accessible export entries; plain;
+    single accessibles hidden / renamed by the cfg), declared before or after each other depending on the class under test.
   * `do <module>` without ':' is counted as a request for a non-existing command.
 """
 import base64
@@ -201,6 +203,7 @@ def kind_of(x):
 # alphabet (from the reference view of the shape and the exported state)
 
 MOD, HIDDEN_MOD = 'm', 'hm'
+PLAIN_MOD, PARTIAL_MOD = 'vm', 'pm'     # further instances of the hidden module's class: plain / single accessibles hidden
 
 
 def L(action, mod, name, x=NOVALUE, why='', hist=False):
@@ -350,6 +353,18 @@ def alphabet(ref, state, tier='quick'):
         add(L('do', HIDDEN_MOD, name, NOVALUE, 'unexported-module'))
         add(L('do', HIDDEN_MOD, name, 1, 'unexported-module'))
     add(L('change', HIDDEN_MOD, None, 1, 'unexported-module'))
+    # the instance of the same class in which the cfg hides / renames single accessibles: the names the plain instance of
+    # the class has must not work here
+    gone = G.partial_gone_names()
+    for name in sorted(gone['param']):
+        for x in (0, 1):
+            add(L('change', PARTIAL_MOD, name, x, 'accessible-hidden-by-cfg'))
+        add(L('do', PARTIAL_MOD, name, NOVALUE, 'accessible-hidden-by-cfg'))
+    for name in sorted(gone['command']):
+        add(L('do', PARTIAL_MOD, name, NOVALUE, 'accessible-hidden-by-cfg'))
+        add(L('do', PARTIAL_MOD, name, 1, 'accessible-hidden-by-cfg'))
+        add(L('change', PARTIAL_MOD, name, 1, 'accessible-hidden-by-cfg'))
+    add(L('change', PARTIAL_MOD, None, 1, 'accessible-hidden-by-cfg'))
     return out
 
 
@@ -404,6 +419,8 @@ def gate(ref, letter, state):
     action, mod, name = letter['a'], letter['mod'], letter['name']
     x = letter_payload(letter)
     nosuch = 'NoSuchParameter' if action == 'change' else 'NoSuchCommand'
+    if mod == PARTIAL_MOD:
+        return Exp('refuse', {nosuch}, 'accessible-hidden-by-cfg')
     if mod not in (MOD, HIDDEN_MOD):
         return Exp('refuse', {'NoSuchModule'}, 'unknown-module')
     if mod == HIDDEN_MOD:
@@ -463,8 +480,16 @@ class World:
         self.mode = mode
         self.ref = G.reference(shape)
         cls = G.make_class(shape)
-        self.node = nodes.Node({MOD: {'cls': cls},
-                                HIDDEN_MOD: dict(json.loads(json.dumps(G.HIDDEN_CFG)), cls=G.make_class(G.HIDDEN_SHAPE))})
+        # next to the module under test: three instances of ONE small class with different export settings (module not
+        # exported; plain; single accessibles hidden / renamed by the cfg), declared in an order that alternates with the
+        # class under test - what one instance registers must not leak into another
+        hcls = G.make_class(G.HIDDEN_SHAPE)
+        others = [(PLAIN_MOD, {'cls': hcls}),
+                  (HIDDEN_MOD, dict(json.loads(json.dumps(G.HIDDEN_CFG)), cls=hcls)),
+                  (PARTIAL_MOD, dict(json.loads(json.dumps(G.PARTIAL_CFG)), cls=hcls))]
+        if sum(map(ord, shape['name'])) % 2:
+            others.reverse()
+        self.node = nodes.Node(dict([(MOD, {'cls': cls})] + others))
         # debug records are not consulted by this check; formatting several of them per request dominates the run time
         import logging
         for name, lg in list(logging.Logger.manager.loggerDict.items()):
@@ -486,14 +511,23 @@ class World:
 
     def snapshot(self):
         snap = {}
+        memo = self.__dict__.setdefault('_memo', {})
         for mname, mod in self.mods().items():
             for pname, pobj in mod.parameters.items():
+                key = f'{mname}:{pname}'
+                value, err, ts = pobj.value, pobj.readerror, pobj.timestamp
+                old = memo.get(key)
+                # cached values are immutable objects replaced on every update: the same objects mean the same entry
+                if old is not None and old[0] is value and old[1] is err and old[2] == ts and old[3] is pobj.datatype:
+                    snap[key] = old[4]
+                    continue
                 try:
-                    ev = pobj.datatype.export_value(pobj.value)
+                    ev = pobj.datatype.export_value(value)
                 except Exception as e:
                     ev = f'unexportable:{type(e).__name__}'
-                err = pobj.readerror
-                snap[f'{mname}:{pname}'] = (ev, None if err is None else f'{type(err).__name__}:{err}', pobj.timestamp)
+                entry = (ev, None if err is None else f'{type(err).__name__}:{err}', ts)
+                memo[key] = (value, err, ts, pobj.datatype, entry)
+                snap[key] = entry
         return snap
 
     def state(self):
